@@ -192,11 +192,20 @@ pub fn gen_sink(rng: &mut Rng, class: u8) -> SinkCfg {
             let mut steps = vec![];
             let n = 1 + rng.small(40);
             for _ in 0..n {
-                steps.push(match rng.weighted(&[3, 4, 2]) {
+                let step = match rng.weighted(&[3, 4, 2]) {
                     0 => WStep::Accept,
                     1 => WStep::Short(1 + rng.small(40)),
-                    _ => WStep::Interrupted,
-                });
+                    _ => {
+                        if rng.chance(1, 10) {
+                            // an EINTR storm
+                            for _ in 0..4 + rng.below(40) {
+                                steps.push(WStep::Interrupted);
+                            }
+                        }
+                        WStep::Interrupted
+                    }
+                };
+                steps.push(step);
             }
             // never end a cycle with Interrupted only
             steps.push(WStep::Short(1 + rng.small(10)));
